@@ -564,3 +564,54 @@ def min_enclosing_ball(P):
             # a feasible ball with k support points: a smaller one may still exist with more
             pass
     return best
+
+
+# ---------------------------------------------------------------------------
+# exact ear clipping (for caps of extruded polygons)
+
+
+def _orient2(a, b, c):
+    return (b[0] - a[0]) * (c[1] - a[1]) - (b[1] - a[1]) * (c[0] - a[0])
+
+
+def triangulate_exact(poly):
+    """Ear clipping of a simple counter-clockwise 2-D polygon with exact predicates.
+    Returns index triples (ccw), or None if a degenerate (collinear) configuration
+    arises on the way (such polygons are skipped by the callers)."""
+    idx = list(range(len(poly)))
+    tris = []
+    guard = 0
+    while len(idx) > 3:
+        guard += 1
+        if guard > 10 * len(poly) + 10:
+            return None
+        n = len(idx)
+        found = False
+        for k in range(n):
+            ia, ib, ic = idx[k - 1], idx[k], idx[(k + 1) % n]
+            a, b, c = poly[ia], poly[ib], poly[ic]
+            o = _orient2(a, b, c)
+            if o < 0:
+                continue
+            if o == 0:
+                return None
+            ok = True
+            for j in idx:
+                if j in (ia, ib, ic):
+                    continue
+                p = poly[j]
+                if _orient2(a, b, p) >= 0 and _orient2(b, c, p) >= 0 and _orient2(c, a, p) >= 0:
+                    ok = False
+                    break
+            if ok:
+                tris.append((ia, ib, ic))
+                del idx[k]
+                found = True
+                break
+        if not found:
+            return None
+    a, b, c = (poly[i] for i in idx)
+    if _orient2(a, b, c) <= 0:
+        return None
+    tris.append(tuple(idx))
+    return tris
